@@ -34,16 +34,125 @@ import (
 //go:embed baseline_funcs.txt
 var baselineFuncsTxt string
 
+var baselineSigs = map[string]string{} // key -> canonical signature (parameter and result types)
+
 var baselineFuncs = func() map[string]bool {
 	m := map[string]bool{}
 	for _, l := range strings.Split(baselineFuncsTxt, "\n") {
 		l = strings.TrimSpace(l)
 		if l != "" && !strings.HasPrefix(l, "#") {
-			m[l] = true
+			k, sig, _ := strings.Cut(l, "\t")
+			m[k] = true
+			baselineSigs[k] = sig
 		}
 	}
 	return m
 }()
+
+// canonSig: the parameter and result types of a function, without names (a method's receiver is not part of it).
+func canonSig(fn *types.Func) string {
+	sig, ok := fn.Type().(*types.Signature)
+	if !ok {
+		return "?"
+	}
+	q := func(p *types.Package) string { return p.Name() }
+	var ps, rs []string
+	for i := 0; i < sig.Params().Len(); i++ {
+		ps = append(ps, types.TypeString(sig.Params().At(i).Type(), q))
+	}
+	for i := 0; i < sig.Results().Len(); i++ {
+		rs = append(rs, types.TypeString(sig.Results().At(i).Type(), q))
+	}
+	v := ""
+	if sig.Variadic() {
+		v = "..."
+	}
+	return strings.Join(ps, ",") + v + "->" + strings.Join(rs, ",")
+}
+
+func bareName(key string) string {
+	if i := strings.LastIndexAny(key, ".:"); i >= 0 {
+		return key[i+1:]
+	}
+	return key
+}
+
+func recvPart(key string) string { // "pkg:(*T)" of "pkg:(*T).m", "pkg:" of "pkg:f"
+	if i := strings.LastIndex(key, ")."); i >= 0 {
+		return key[:i+1]
+	}
+	return key[:strings.Index(key, ":")+1]
+}
+
+// renamePairs: a function of the baseline that is gone, and a function the baseline does not know, are
+// taken to be one function under two names when the pairing is unambiguous: same package and (a) the same
+// bare name (a method turned into a plain function or back), or (b) the same receiver and the same
+// parameter and result types, with exactly one candidate on either side. Returns new key -> baseline key.
+func renamePairs(pkgs []*packages.Package) map[string]string {
+	cur := map[string]*types.Func{}
+	for _, pk := range pkgs {
+		if !repoPkg(pk.PkgPath) || pk.TypesInfo == nil {
+			continue
+		}
+		for _, f := range pk.Syntax {
+			for _, d := range f.Decls {
+				if fd, ok := d.(*ast.FuncDecl); ok && fd.Name.Name != "init" && fd.Name.Name != "_" {
+					if fn, ok := pk.TypesInfo.Defs[fd.Name].(*types.Func); ok {
+						cur[declKey(pk.PkgPath, fd)] = fn
+					}
+				}
+			}
+		}
+	}
+	var gone, fresh []string
+	for k := range baselineFuncs {
+		if _, ok := cur[k]; !ok && !strings.HasSuffix(k, ":init") {
+			gone = append(gone, k)
+		}
+	}
+	for k := range cur {
+		if !baselineFuncs[k] {
+			fresh = append(fresh, k)
+		}
+	}
+	sort.Strings(gone)
+	sort.Strings(fresh)
+	pkgOf := func(k string) string { return k[:strings.Index(k, ":")] }
+	out := map[string]string{}
+	taken := map[string]bool{}
+	match := func(same func(g, f string) bool) {
+		for _, g := range gone {
+			if taken[g] {
+				continue
+			}
+			var cands []string
+			for _, f := range fresh {
+				if _, used := out[f]; !used && pkgOf(f) == pkgOf(g) && same(g, f) {
+					cands = append(cands, f)
+				}
+			}
+			if len(cands) != 1 {
+				continue
+			}
+			// and the candidate has no other gone function it could be
+			others := 0
+			for _, g2 := range gone {
+				if !taken[g2] && pkgOf(g2) == pkgOf(g) && same(g2, cands[0]) {
+					others++
+				}
+			}
+			if others == 1 {
+				out[cands[0]] = g
+				taken[g] = true
+			}
+		}
+	}
+	match(func(g, f string) bool { return bareName(g) == bareName(f) })
+	match(func(g, f string) bool { return recvPart(g) == recvPart(f) && baselineSigs[g] != "" && baselineSigs[g] == canonSig(cur[f]) })
+	return out
+}
+
+var renamedTo = map[string]string{} // new key -> baseline key, of the program being analysed
 
 func declKey(pkgPath string, d *ast.FuncDecl) string {
 	k := short(pkgPath) + ":"
@@ -56,6 +165,7 @@ func declKey(pkgPath string, d *ast.FuncDecl) string {
 // newHelperDecls: function declarations of repository packages that the baseline does not list.
 func newHelperDecls(pkgs []*packages.Package) map[*types.Func]*ast.FuncDecl {
 	out := map[*types.Func]*ast.FuncDecl{}
+	renamed := renamePairs(pkgs)
 	for _, pk := range pkgs {
 		if !repoPkg(pk.PkgPath) || pk.TypesInfo == nil {
 			continue
@@ -66,7 +176,7 @@ func newHelperDecls(pkgs []*packages.Package) map[*types.Func]*ast.FuncDecl {
 				if !ok || fd.Body == nil || fd.Name.Name == "init" || fd.Name.Name == "main" || fd.Name.Name == "_" {
 					continue
 				}
-				if baselineFuncs[declKey(pk.PkgPath, fd)] {
+				if baselineFuncs[declKey(pk.PkgPath, fd)] || renamed[declKey(pk.PkgPath, fd)] != "" {
 					continue
 				}
 				if fn, ok := pk.TypesInfo.Defs[fd.Name].(*types.Func); ok {
@@ -87,7 +197,11 @@ func dumpFuncs(pkgs []*packages.Package) []string {
 		for _, f := range pk.Syntax {
 			for _, d := range f.Decls {
 				if fd, ok := d.(*ast.FuncDecl); ok {
-					out = append(out, declKey(pk.PkgPath, fd))
+					sig := ""
+					if fn, ok := pk.TypesInfo.Defs[fd.Name].(*types.Func); ok {
+						sig = canonSig(fn)
+					}
+					out = append(out, declKey(pk.PkgPath, fd)+"\t"+sig)
 				}
 			}
 		}
